@@ -1,0 +1,14 @@
+//go:build verif
+
+package repl
+
+// VerifCrashHook, when set by a verification harness, is called before and
+// after every file-system step of the history, stash and settings updates so
+// that a process death can be simulated at that step.
+var VerifCrashHook func(name string)
+
+func verifCrash(name string) {
+	if h := VerifCrashHook; h != nil {
+		h(name)
+	}
+}
